@@ -170,6 +170,23 @@ func runC17(s *core.Sim, tier string) RunInfo {
 						return
 					}
 				}
+				// reads inside the range a racing tail-side deletion is removing: either answer is
+				// fine while the race is on, but nothing may make the header readable afterwards
+				// (checked by the final comparison with the model)
+				if delTo > first {
+					h := first + uint64((i*5+ri)%int(delTo-first))
+					c, cancel := short(ctx)
+					if g, err := w.St.GetByHeight(c, h); err == nil {
+						if !simhdr.Equal(g, w.Ch.At(h)) {
+							s.Violate("wrong-header", nil, "GetByHeight(%d) returned %v", h, g)
+						}
+						_, _ = w.St.Get(c, g.Hash())
+					} else {
+						_, _ = w.St.Get(c, w.Ch.At(h).Hash())
+					}
+					cancel()
+					s.Probe("read-inside-range-being-deleted")
+				}
 				s.Yield("reader-pause")
 			}
 		}))
